@@ -113,9 +113,38 @@ CHECKS = {
              "body. Import paths are resolved by the harness (posix normalisation, lookup directories); realpath/symlinks are not modelled. Import recursion uses fuel = number "
              "of files + 1; running out of fuel is reported as the SsbCompilerError the implementation raises one level earlier (pigeonhole argument, not proved). "
              "Workers run compile() with Python's default recursion limit (1000) and 1500 MB address space."),
+    "C15": dict(
+        level="proof", design="4/C15",
+        technique="Lean 4 theorems about a hand-written model of cli/compile.py (build_ops, build_routines_json) and cli/decompile.py (parse_pos_mark_arg, "
+                  "read_ops, read_routines, check_settings, the decompiler's coroutine id -> name table) and of the documented JSON structure (DocShape); "
+                  "exact model-vs-implementation comparison (real functions in-process, and what the real commands print); property oracle on real "
+                  "subprocess runs of `python -m explorerscript.cli.compile|decompile`; behavioural end-to-end part by translation validation "
+                  "(kernel-checked validator beh.validate on the text the decompile command prints)",
+        text="Kernel-checked for ALL routine sets (any routine kinds, ops, parameters, offsets): what the decompile command reads from what the compile "
+             "command prints is the same routines/ops/parameters with every op numbered by its 1-based position across all routines (cli_roundtrip); "
+             "for a closed set this is a renumbering of the compiler's set (every jump parameter denotes the op at the position of the original target) "
+             "IF AND ONLY IF the jump parameters are positions (cli_positional, cli_positional_only, cli_positional_iff); the printed JSON has the "
+             "documented structure under explicit hypotheses (cli_docshape); check_settings + read_routines accept EVERY document of the documented "
+             "structure whose position coordinates are strings — all routine and argument types (cli_accepts_documented). The literal property is FALSE on the pinned code, with kernel-checked "
+             "witnesses that are real compiler outputs and are replayed through the real commands on every run: the compile command prints internal "
+             "offsets, which differ from positions after a dropped jump (cli_gap_counterexample: `if` without else; cli_gap_wrong_op_counterexample) or "
+             "an out-of-order op (cli_out_of_order_counterexample: switch with default); every COROUTINE routine is refused (cli_coroutine_counterexample); "
+             "target id -1 is printed as null (cli_target_null_counterexample); the documentation's integer position coordinates are refused "
+             "(cli_posmark_int_counterexample). For the PROPOSED repair (offset -> position when building the JSON) the property is proved for every "
+             "closed routine set (cli_build_positional_fixed; cli_fixed_conservative: nothing changes where the output already was positional; "
+             "cli_coroutine_fixed for registering coroutines under their routine index). The behavioural end-to-end claim (decompiled text behaves like "
+             "the source) and the exit-status claim are NOT theorems: they are checked per run on real subprocesses (translation validation with the "
+             "proven checker; 60 programs quick / 2000 thorough through both commands, plus generated documented documents through the decompile command).",
+        note=COMMON_NOTE + "The decompiler behind read_routines is not modelled; where its text is wrong the check verifies that the command's text is "
+             "identical to the decompiler's own answer through the Python API on the same routine set and records the case as the decompiler's defect "
+             "(C02/C06). Outside the model: JSON true/false (Python bool is an int), duplicate keys, documents that rely on duck typing (non-string "
+             "opcode/constant/name), int(s, 0) spellings outside the INTEGER token (blanks, '+', '_'). DocShape is this project's reading of "
+             "docs/cli_api_usage.rst (additional members allowed; target_id integer or string; FIXED_POINT a decimal string; position coordinates integer "
+             "or whole/half-tile string); a hand-written Python validator of the same reading is compared with it on every document. "
+             "json.loads(json.dumps(v)) == v is assumed (stdlib)."),
 }
 
-PENDING_REASON = "check not built yet in this round (design in DESIGN.md §4); will be claimed once its Lean model and correspondence exist"
+PENDING_REASON ="check not built yet in this round (design in DESIGN.md §4); will be claimed once its Lean model and correspondence exist"
 
 
 def main() -> None:
